@@ -4,7 +4,7 @@ import json, os, re, time
 from concurrent.futures import ThreadPoolExecutor
 import vlib
 
-INVS = ["C01_NoInvention", "C01_NoLoss", "C01_Converged", "C01_MergeOfAll", "C02_HeldIsDurable", "C02_RowsMatch", "NoErr",
+INVS = ["C02_PartialRowsMatch", "C01_NoInvention", "C01_NoLoss", "C01_Converged", "C01_MergeOfAll", "C02_HeldIsDurable", "C02_RowsMatch", "NoErr",
         "C03_Atomic", "C03_CoveredIsPending", "C03_BufferedHaveRecord", "C05_Serve", "C07_OwnHead", "C06_AckedPresent"]
 FIX_S12 = True
 
@@ -69,7 +69,7 @@ def load_trace(path):
 # ---------------------------------------------------------------------------------------------------
 # direct oracles: the properties evaluated on the recorded real states themselves (used to classify a
 # trace that TLC rejected: real defect vs. model mismatch)
-INV_OWNER = {"C01_NoInvention": "C01", "C01_NoLoss": "C01", "C01_Converged": "C01", "C01_MergeOfAll": "C01",
+INV_OWNER = {"C02_PartialRowsMatch": "C06", "C01_NoInvention": "C01", "C01_NoLoss": "C01", "C01_Converged": "C01", "C01_MergeOfAll": "C01",
              "C02_HeldIsDurable": "C02", "C02_RowsMatch": "C02", "NoErr": "C06", "C03_Atomic": "C03",
              "C03_CoveredIsPending": "C03", "C03_BufferedHaveRecord": "C03", "C05_Serve": "C05",
              "C07_OwnHead": "C07", "C06_AckedPresent": "C06"}
@@ -90,10 +90,30 @@ def oracles(events, upto):
     ok_tx = {}            # node -> number of acknowledged transactions
     last_post = {}        # node -> last projected state
     restarted = set()
+    net = {}              # message id -> abstract message
+    recv = {}             # (node, actor, version) -> set of received seqs
+    lasts = {}            # (node, actor, version) -> set of last_seq values seen in delivered chunks
+    cleared = {}          # (node, actor) -> versions delivered as empty
+    partial_seen = set()  # (node, actor, version) that arrived (also) as partial chunks
     for ev in events[1:upto + 1]:
         op = ev["op"]["op"]
         n = ev.get("n", 0)
         post = ev.get("post")
+        for m in ev.get("created", []) or []:
+            if m.get("id"):
+                net[m["id"]] = m
+        if op == "deliver" and not ev.get("err"):
+            for mid in ev["op"]["batch"]:
+                m = net.get(mid)
+                if not m:
+                    continue
+                if m["k"] == "empty":
+                    cleared.setdefault((n, m["a"]), set()).update(range(m["lo"], m["hi"] + 1))
+                else:
+                    if not (m["lo"] == 0 and m["hi"] == m["last"]):
+                        partial_seen.add((n, m["a"], m["v"]))
+                    recv.setdefault((n, m["a"], m["v"]), set()).update(range(m["lo"], m["hi"] + 1))
+                    lasts.setdefault((n, m["a"], m["v"]), set()).add(m["last"])
         if op == "tx":
             if ev["op"]["fail"] == "" and ev.get("ok"):
                 ok_tx[n] = ok_tx.get(n, 0) + 1
@@ -146,6 +166,32 @@ def oracles(events, upto):
                     break
             if post["own"]["max"] != ok_tx.get(n, 0) or post["own"]["needed"] or post["own"]["dbv"] != ok_tx.get(n, 0):
                 fails.append(("C06" if n in restarted else "C07", "own head/needed of node %d is %s after %d acknowledged transactions (event %d)" % (n, json.dumps(post["own"]), ok_tx.get(n, 0), ev["i"])))
+            # a node that claims to hold a version has every change of it that has not lost globally (NoLoss)
+            best = {}
+            for (site, dbv, seq, key, cv, val) in written:
+                if key not in best or (cv, val) > best[key][:2]:
+                    best[key] = (cv, val, site, dbv, seq)
+            mycells = {c["key"]: (c["cv"], c["val"], c["site"], c["dbv"], c["seq"]) for c in post["cells"]}
+            for b in post["book"]:
+                unapplied = set()
+                pending = {v for (a, v) in post["pendApply"] if a == b["a"]}
+                for p in b["partials"]:
+                    covered = not (set(range(0, p["last"] + 1)) - elems(p["seqs"]))
+                    rows_left = any(r[0] == p["v"] for r in b["seqRows"])
+                    if not covered or p["v"] in pending or (rows_left and post.get("auto")):
+                        unapplied.add(p["v"])
+                claimed = set(range(1, b["max"] + 1)) - elems(b["needed"]) - unapplied
+                # advertised as held only what was received completely (or recorded as cleared)
+                for v in claimed:
+                    got = recv.get((n, b["a"], v), set())
+                    whole = any(set(range(0, L + 1)) <= got for L in lasts.get((n, b["a"], v), set()))
+                    if not whole and v not in cleared.get((n, b["a"]), set()):
+                        fails.append(("C06" if n in restarted else "C02", "node %d advertises version (%d,%d) as held but only received seqs %s of it (event %d)" % (n, b["a"], v, sorted(got), ev["i"])))
+                for key, w in best.items():
+                    if w[2] == b["a"] and w[3] in claimed and mycells.get(key) != w:
+                        if True:
+                            chunked = any(L + 1 > len(recv.get((n, b["a"], w[3]), set())) or True for L in lasts.get((n, b["a"], w[3]), set())) and (n, b["a"], w[3]) in partial_seen
+                            fails.append(((tag or "C01") + ("+C03" if chunked else ""), "node %d claims to hold version (%d,%d) but lacks its change to key %s, which no acknowledged change dominates (event %d)" % (n, b["a"], w[3], key, ev["i"])))
             # own acknowledged writes present or overwritten by a dominating change
             for b in post["book"]:
                 pv = {p["v"] for p in b["partials"]}
@@ -158,6 +204,13 @@ def oracles(events, upto):
                 for c in post["cells"]:
                     if c["site"] == b["a"] and c["dbv"] in unapplied:
                         fails.append(("C03", "node %d shows a change of version (%d,%d) that is only partially received / not yet applied (event %d)" % (n, b["a"], c["dbv"], ev["i"])))
+                for p in b["partials"]:
+                    rows = set()
+                    for r in b["seqRows"]:
+                        if r[0] == p["v"]:
+                            rows |= set(range(r[1], r[2] + 1))
+                    if rows and rows != elems(p["seqs"]):
+                        fails.append(("C06" if n in restarted else "C02", "node %d lists seqs %s of version (%d,%d) as received but its seq rows cover %s (event %d)" % (n, sorted(elems(p["seqs"])), b["a"], p["v"], sorted(rows), ev["i"])))
                 if sorted(map(tuple, b["gapRows"])) != sorted(map(tuple, b["needed"])):
                     fails.append(("C02", "gap rows differ from the in-memory needed set at node %d (event %d)" % (n, ev["i"])))
             last_post[n] = post
@@ -222,8 +275,8 @@ def judge(seed, trace, res, focus):
         fl = oracles(events, min(upto, len(events) - 1))
         if res["violated"]:
             fl.append((INV_OWNER.get(res["violated"], "C01"), "invariant %s of Replication.tla is false in the state after event %d of the recorded walk" % (res["violated"], upto - 1)))
-    mine = [t for (p, t) in fl if focus is None or p == focus]
-    others = [(p, t) for (p, t) in fl if focus is not None and p != focus]
+    mine = [t for (p, t) in fl if focus is None or focus in p.split("+")]
+    others = [(p, t) for (p, t) in fl if focus is not None and focus not in p.split("+")]
     if mine:
         viol.extend(mine[:3])
     elif others:
